@@ -307,7 +307,7 @@ fn addresses(ctx: &mut Ctx) {
 /// architecture values of the header format too): values a special case would be keyed on.
 fn special_sizes(ctx: &mut Ctx) {
     let arena = Arena::new_sparse((1usize << 32) / arena::PAGE + 1);
-    ctx.bound("special_sizes", "total-size word over every EDGE32 value above 1 MiB (incl. 0xE85250D6 and 0x36D76289) and each rounded down to a multiple of 8, x reserved word {0, 4, 8, 0xFFFFFFFF} x valid / invalid end tag; region physically present in a sparse 4 GiB arena");
+    ctx.bound("special_sizes", "total-size word over every EDGE32 value above 1 MiB (incl. 0xE85250D6 and 0x36D76289) and each rounded down to a multiple of 8, x reserved word {0, 4, 8, 0xFFFFFFFF} x valid / invalid end tag; total-size words made of one repeated byte (0x01010101 .. 0xFFFFFFFF, memory-fill patterns) x reserved word {0, 4, 8, 0xFFFFFFFF, the same word, its complement}; region physically present in a sparse 4 GiB arena");
     let mut totals: Vec<usize> = vec![];
     for &e in EDGE32.iter() {
         if e as usize > (1 << 20) {
@@ -318,8 +318,17 @@ fn special_sizes(ctx: &mut Ctx) {
             }
         }
     }
-    for total in totals {
-        for res in [0u32, 4, 8, 0xFFFF_FFFF] {
+    // memory-fill patterns: both header words made of one repeated byte (freed / uninitialised / poisoned memory)
+    let nspecial = totals.len();
+    for b in 1..=255usize {
+        totals.push(b * 0x0101_0101);
+    }
+    for (ti, total) in totals.into_iter().enumerate() {
+        let t32 = total as u32;
+        for res in [0u32, 4, 8, 0xFFFF_FFFF, t32, !t32] {
+            if ti < nspecial && (res == t32 || res == !t32) {
+                continue;
+            }
             for valid_end in [true, false] {
                 let describe = || J::obj().set("part", "special_sizes").set("total_size_word", total).set("reserved_word", res).set("valid_end_tag", valid_end);
                 ctx.leaf(describe, |ctx| {
